@@ -1,19 +1,25 @@
 Require Import Coq.Strings.String.
-Require Import Base.Bytes Gen.TextTab Text.Escape Text.EscapeProofs Text.Codepage Text.CodepageProofs Props.C12.
+Require Import Props.C12.
+Require Import Base.Bytes Gen.TextTab Text.Escape Text.EscapeProofs Text.Codepage Text.CodepageProofs Text.CodepageRoundtrip Text.WireComposition.
+Local Open Scope N_scope.
 Check c12_unescape_escape : forall s, unescape (escape s) = s.
 Check c12_escaped_is_reserved_free : forall s, existsb reserved (escape s) = false.
 Check c12_strip_removes_exactly_colours : forall s,
   strip s = concat (map (render false) (tokens s)) /\ s = concat (map (render true) (tokens s)).
 Check c12_strip_idempotent : forall s, strip (strip s) = strip s.
-Check c12_strip_keeps_text_without_colours : forall s, (forall d, ~ In (TColour d) (tokens s)) -> strip s = s.
+Check c12_strip_keeps_text_without_colours : forall s,
+  (forall d, ~ In (TColour d) (tokens s)) -> strip s = s.
 Check c12_fast_paths : forall s, escape s = esc s /\ unescape s = unesc s /\ strip s = strp s.
-Check c12_wire_composition_partial : forall enc dec,
-  (forall l bs, forallb is_ascii bs = true -> dec l bs = bs) ->
-  forall s, forallb is_ascii s = true -> existsb is_caret s = false ->
+Check c12_wire_composition : forall enc dec,
+  (forall l c w, enc l c = Some w -> exists b1, 128 <= b1 /\ (w = [b1] \/ exists b2, w = [b1; b2])) ->
+  (forall l, dec l [] = []) ->
+  (forall l b r, is_ascii b = true -> dec l (b :: r) = b :: dec l r) ->
+  (forall l c w r, enc l c = Some w -> dec l (w ++ r) = c :: dec l r) ->
+  (forall l c b1 b2, enc l c = Some [b1; b2] -> lead l b1 = true) ->
+  (forall l c b1, enc l c = Some [b1] -> lead l b1 = false) ->
+  (forall bs, dec gen_propagate_letter bs = dec gen_default_codepage bs) ->
+  forall s, Forall (encodable enc) s ->
   unescape (to_lossy_string dec (to_lossy_bytes enc (escape s))) = s.
-Check c12_caret_marker_refuted : forall enc dec,
-  (forall l bs, forallb is_ascii bs = true -> dec l bs = bs) ->
-  exists s, forallb is_ascii s = true /\ unescape (to_lossy_string dec (to_lossy_bytes enc (escape s))) <> s.
 Check c12_tables : tab_inverse = true.
 Print Assumptions c12_unescape_escape.
 Print Assumptions c12_escaped_is_reserved_free.
@@ -21,6 +27,5 @@ Print Assumptions c12_strip_removes_exactly_colours.
 Print Assumptions c12_strip_idempotent.
 Print Assumptions c12_strip_keeps_text_without_colours.
 Print Assumptions c12_fast_paths.
-Print Assumptions c12_wire_composition_partial.
-Print Assumptions c12_caret_marker_refuted.
+Print Assumptions c12_wire_composition.
 Print Assumptions c12_tables.
